@@ -81,6 +81,14 @@ func nn2(s [][]int) [][]int {
 func resC09(g graph.Graph, eg graph.EditableGraph, r *rand.Rand) tr.E {
 	n := g.N()
 	out := tr.E{}
+	// a returned slice belongs to the caller: keep() logs a copy and remembers the slice itself, which is compared again after all other calls
+	type kept struct{ raw, copy []int }
+	var held []kept
+	keep := func(raw []int) []int {
+		c := cp(raw)
+		held = append(held, kept{raw, c})
+		return c
+	}
 	out["clique"] = graph.CliqueNumber(g)
 	out["indep"] = graph.IndependenceNumber(g)
 	ch := make(chan []int, 1024)
@@ -96,11 +104,11 @@ func resC09(g graph.Graph, eg graph.EditableGraph, r *rand.Rand) tr.E {
 	}
 	out["maxcliques"] = mc
 	k, col := graph.ChromaticNumber(g)
-	out["chrom"] = tr.E{"k": k, "col": cp(col)}
+	out["chrom"] = tr.E{"k": k, "col": keep(col)}
 	kc := []tr.E{}
 	for q := 0; q <= n+1; q++ {
 		ok, c := graph.IsKColorable(g, q)
-		kc = append(kc, tr.E{"k": q, "ok": ok, "col": cp(c)})
+		kc = append(kc, tr.E{"k": q, "ok": ok, "col": keep(c)})
 	}
 	out["kcol"] = kc
 	ci, cols := graph.ChromaticIndex(g)
@@ -118,11 +126,11 @@ func resC09(g graph.Graph, eg graph.EditableGraph, r *rand.Rand) tr.E {
 	}
 	for _, o := range orders {
 		gk, gc := graph.GreedyColor(g, cp(o))
-		gr = append(gr, tr.E{"order": o, "k": gk, "col": cp(gc)})
+		gr = append(gr, tr.E{"order": o, "k": gk, "col": keep(gc)})
 	}
 	out["greedy"] = gr
 	d, ord := graph.Degeneracy(g)
-	out["degen"] = tr.E{"d": d, "order": cp(ord)}
+	out["degen"] = tr.E{"d": d, "order": keep(ord)}
 	// beyond the listed functions: RandomMaximalClique (a maximal clique, the same for the same seed) and IsProperColouring
 	rmc := []tr.E{}
 	for seed := int64(1); seed <= 4; seed++ {
@@ -144,6 +152,22 @@ func resC09(g graph.Graph, eg graph.EditableGraph, r *rand.Rand) tr.E {
 		ipc = append(ipc, tr.E{"col": c, "ok": graph.IsProperColouring(g, cp(c))})
 	}
 	out["ipc"] = ipc
+	// once more the functions that return colourings (on the same graph), then the kept slices must still hold what they held
+	graph.ChromaticNumber(g)
+	graph.IsKColorable(g, 2)
+	graph.GreedyColor(g, identity(n))
+	stable := true
+	for _, h := range held {
+		if len(h.raw) != len(h.copy) {
+			stable = false
+		}
+		for i := range h.copy {
+			if i < len(h.raw) && h.raw[i] != h.copy[i] {
+				stable = false
+			}
+		}
+	}
+	out["stable"] = stable
 	return out
 }
 
@@ -196,6 +220,20 @@ func resC10(g graph.Graph, eg graph.EditableGraph) tr.E {
 	return out
 }
 
+// resC09Big: the functions that stay fast on graphs with hundreds of vertices (families with closed-form answers)
+func resC09Big(g graph.Graph) tr.E {
+	out := tr.E{}
+	out["clique"] = graph.CliqueNumber(g)
+	k, col := graph.ChromaticNumber(g)
+	out["chrom"] = tr.E{"k": k, "col": cp(col)}
+	gk, gc := graph.GreedyColor(g, identity(g.N()))
+	out["greedy"] = tr.E{"k": gk, "col": cp(gc)}
+	d, ord := graph.Degeneracy(g)
+	out["degen"] = tr.E{"d": d, "order": cp(ord)}
+	out["mindeg"], out["maxdeg"] = graph.MinDegree(g), graph.MaxDegree(g)
+	return out
+}
+
 func runInv(w *tr.W, in invIn) {
 	if in.G.E == nil {
 		in.G.E = []int{}
@@ -210,7 +248,11 @@ func runInv(w *tr.W, in invIn) {
 			before := fmt.Sprint(obs.Of(g), obs.Of(eg), obs.Of(base))
 			switch in.Prop {
 			case "C09":
-				res = resC09(g, eg, r)
+				if in.Known != "" {
+					res = resC09Big(g)
+				} else {
+					res = resC09(g, eg, r)
+				}
 			case "C10":
 				res = resC10(g, eg)
 			default:
@@ -270,6 +312,16 @@ func invGrid(c *Ctx, prop string) []invIn {
 	}
 	if prop == "C11" {
 		return planarGrid(c, add)
+	}
+	if prop == "C09" { // hundreds of vertices, degrees beyond 127 and 255: stars, complete graphs and cycles have closed-form answers
+		for _, n := range []int{129, 130, 256, 257, 300} {
+			vs := []invVar{{Pi: identity(n), Rep: "dense"}, {Pi: r.Perm(n), Rep: "sparse"}}
+			add("big-star", gJOf(graph.Star(n)), vs, "star")
+			add("big-cycle", gJOf(graph.Cycle(n)), vs, "cycle")
+			if n <= 257 {
+				add("big-complete", gJOf(graph.CompleteGraph(n)), vs[:1], "complete")
+			}
+		}
 	}
 	for n := 0; n <= 4; n++ { // every labelled graph
 		for _, gj := range allGraphsJ(n) {
